@@ -30,11 +30,13 @@ SCHEDULE = {
 }
 # C19 is about memory errors: weight the sanitizer builds more
 SCHEDULE_C19 = {
-    "quick": [("exc.plain", "P", 4000), ("exit.plain", "P", 2000), ("exc.asan", "P", 1400), ("exit.asan", "P", 700), ("exc.asan", "GEN", 300)],
+    "quick": [("exc.plain", "P", 4000), ("exit.plain", "P", 2000), ("exc.asan", "P", 1400), ("exit.asan", "P", 700), ("exc.asan", "GEN", 300), ("exc.valgrind", "P", 32)],
     "thorough": [("exc.plain", "P", 250000), ("exit.plain", "P", 120000), ("exc.plain", "GEN", 60000), ("exc.asan", "P", 60000), ("exit.asan", "P", 30000),
-                 ("exc.asan", "GEN", 20000), ("exc.asan", "C11", 10000), ("exc.asan", "C17", 10000)],
+                 ("exc.asan", "GEN", 20000), ("exc.asan", "C11", 10000), ("exc.asan", "C17", 10000), ("exc.valgrind", "P", 1200), ("exc.valgrind", "GEN", 400)],
 }
-CHUNK = {"plain": 100, "asan": 20}
+CHUNK = {"plain": 100, "asan": 20, "valgrind": 1}
+VALGRIND = ["valgrind", "-q", "--error-exitcode=78", "--exit-on-first-error=yes", "--leak-check=full", "--errors-for-leak-kinds=definite", "--num-callers=12"]
+C12_ENUM = 2 * (7 + 49 + 343 + 2401)  # must equal kC12EnumCount in sim/sim_gen.h
 
 REAL_VS_STUB = {
     "real": ["every src/*.cpp of the default configuration compiled from /repo's working tree (C++ templates for double and long double, extern \"C\" layer)",
@@ -100,7 +102,7 @@ def run_chunk(exe, variant, profile, seed, start, count, prop, agg_lock_free):
     guard = 0
     while nxt < end and guard < count + 5:
         guard += 1
-        cmd = [exe, "--data", DATA, "--batch", "--seed", str(seed), "--profile", profile, "--start", str(nxt), "--count", str(end - nxt)]
+        cmd = (VALGRIND if "valgrind" in variant else []) + [exe, "--data", DATA, "--batch", "--seed", str(seed), "--profile", profile, "--start", str(nxt), "--count", str(end - nxt)]
         env = dict(os.environ)
         env["ASAN_OPTIONS"] = "exitcode=77:detect_leaks=0:allocator_may_return_null=1"
         try:
@@ -140,6 +142,12 @@ def run_chunk(exe, variant, profile, seed, start, count, prop, agg_lock_free):
                 res["cells"].update(line.split()[1:])
             elif line.startswith("BATCH-END"):
                 ended = True
+        if ended and rc == 78 and "valgrind" in variant:
+            # memcheck found a leak at exit (errors during the run end the process at once): one run per process,
+            # so the finding belongs to that run
+            d0 = res["runs"][-1] if res["runs"] else {"seed": "?", "idx": str(nxt)}
+            res["crashes"].append({"kind": "valgrind", "sig": "78", "seed": d0.get("seed"), "step": "exit", "op": "LEAKCHECK", "owner": "C19", "variant": variant, "profile": profile,
+                                   "batchseed": seed, "wstart": nxt, "idx": d0.get("idx"), "stderr_tail": err[-1500:]})
         if ended:
             break
         # the worker died: attribute and resume after the run that was executing
@@ -149,8 +157,10 @@ def run_chunk(exe, variant, profile, seed, start, count, prop, agg_lock_free):
         if not crash_seen:
             # died without a CRASH line (UBSan report, stack overflow, SIGKILL): find the running step by executing the
             # same run alone with tracing -- the run is a pure function of its seed
-            kind = "sanitizer" if rc == 77 else "signal"
+            kind = "valgrind" if (rc == 78 and "valgrind" in variant) else "sanitizer" if rc == 77 else "signal"
             op, owner = trace_death(exe, seed, profile, last_start["idx"])
+            if kind == "valgrind":
+                owner = "C19" if owner == "C19" else owner + "+C19"
             res["crashes"].append({"kind": kind, "sig": str(-rc if rc < 0 else rc), "seed": last_start["seed"], "step": "?", "op": op, "owner": owner, "variant": variant,
                                    "profile": profile, "batchseed": seed, "wstart": nxt, "idx": last_start["idx"], "stderr_tail": err[-1500:]})
         nxt = int(last_start["idx"]) + 1
@@ -188,6 +198,10 @@ def sim_emit_plan(exe, seed, profile, idx, path, history_from=None):
             f.write(subprocess.run([exe, "--data", DATA, "--emit-plan", "--seed", str(seed), "--profile", profile, "--index", str(i)], stdout=subprocess.PIPE, text=True).stdout)
 
 
+def wrap(variant, cmd):
+    return (VALGRIND + cmd) if "valgrind" in variant else cmd
+
+
 def minimise_with_fallback(exe, cands, planf, minf, extra):
     """Minimise the first candidate that reproduces: alone, else together with the sessions its worker ran before it."""
     last = None
@@ -196,17 +210,20 @@ def minimise_with_fallback(exe, cands, planf, minf, extra):
             if hist is not None and int(hist) >= int(v["idx"]):
                 continue
             sim_emit_plan(exe, v["batchseed"], v["profile"], v["idx"], planf, hist)
-            r = subprocess.run([exe, "--data", DATA, "--minimise", planf] + extra + ["--variant", v["variant"], "-o", minf], stdout=subprocess.PIPE, stderr=subprocess.PIPE, text=True)
+            vg = "valgrind" in v["variant"]
+            r = subprocess.run(wrap(v["variant"], [exe, "--data", DATA, "--minimise", planf] + extra + (["--budget", "40"] if vg else []) + ["--variant", v["variant"], "-o", minf]), stdout=subprocess.PIPE, stderr=subprocess.PIPE, text=True)
+            if vg and os.path.exists(minf) and "MINIMISED" in r.stdout:
+                r.returncode = 0  # the minimiser itself exits 78 under memcheck when its forked probes reported errors
             last = r
             if r.returncode == 0 and os.path.exists(minf):
                 return v, r
     return None, last
 
 
-def sim_replay(exe, path):
+def sim_replay(exe, path, variant=""):
     env = dict(os.environ)
     env["ASAN_OPTIONS"] = "exitcode=77:detect_leaks=0:allocator_may_return_null=1"
-    p = subprocess.run([exe, "--data", DATA, "--replay", path], stdout=subprocess.PIPE, stderr=subprocess.PIPE, text=True, errors="replace", env=env, timeout=600)
+    p = subprocess.run(wrap(variant, [exe, "--data", DATA, "--replay", path]), stdout=subprocess.PIPE, stderr=subprocess.PIPE, text=True, errors="replace", env=env, timeout=900)
     run, viols, crash = None, [], None
     for line in p.stdout.split("\n"):
         if line.startswith("RUN "):
@@ -267,8 +284,14 @@ def main():
         seed = 20261002
     t0 = time.time()
     sched = (SCHEDULE_C19 if prop == "C19" else SCHEDULE)[tier]
-    sched = [(v, prop if p == "P" else p, max(CHUNK["asan" if "asan" in v else "plain"], int(n * scale))) for v, p, n in sched]
-    variants = sorted(set(v for v, _, _ in sched))
+    def vkind(v):
+        return "valgrind" if "valgrind" in v else "asan" if "asan" in v else "plain"
+    sched = [(v, prop if p == "P" else p, max(CHUNK[vkind(v)], int(n * scale))) for v, p, n in sched]
+    if prop == "C12":
+        # stratified sweep (enumeration, not simulation): every sequence of length <= 4 over
+        # {INIT a, INIT b, SELECT a, SELECT b, SET, GET, re-INIT a}, both precisions, in both abort builds
+        sched += [("exc.plain", "C12E", C12_ENUM), ("exit.plain", "C12E", C12_ENUM)]
+    variants = sorted(set(v.replace("valgrind", "plain") for v, _, _ in sched))
     log("run_check: property=%s tier=%s seed=%d variants=%s" % (prop, tier, seed, ",".join(variants)))
     exes = {}
     try:
@@ -284,12 +307,12 @@ def main():
     # ---------------- run the batches
     tasks = []
     for si, (v, p, n) in enumerate(sched):
-        chunk = CHUNK["asan" if "asan" in v else "plain"]
+        chunk = CHUNK[vkind(v)]
         bseed = seed * 1000 + si  # every schedule entry explores its own seed range
         for s in range(0, n, chunk):
-            tasks.append((exes[v], v, p, bseed, s, min(chunk, n - s)))
-    # longest (sanitizer) chunks first
-    tasks.sort(key=lambda t: (0 if "asan" in t[1] else 1, t[4]))
+            tasks.append((exes[v.replace("valgrind", "plain")], v, p, bseed, s, min(chunk, n - s)))
+    # slowest (valgrind, sanitizer) chunks first
+    tasks.sort(key=lambda t: (0 if "valgrind" in t[1] else 1 if "asan" in t[1] else 2, t[4]))
     agg = Agg()
     trun0 = time.time()
     with ThreadPoolExecutor(max_workers=WORKERS) as ex:
@@ -331,7 +354,7 @@ def main():
     # a crash is a verdict for the property that owns the step's post-condition, and for C19 when it is a memory error
     def crash_props(c):
         ps = set(c.get("owner", "C19").split("+"))
-        if c.get("kind") in ("signal", "sanitizer"):
+        if c.get("kind") in ("signal", "sanitizer", "valgrind"):
             ps.add("C19")
         return ps
     my_crashes = [c for c in crashes if prop in crash_props(c)]
@@ -365,7 +388,7 @@ def main():
             known_hits.append((k, len(vs)))
             continue
         v = vs[0]
-        exe = exes[v["variant"]]
+        exe = exes[v["variant"].replace("valgrind", "plain")]
         base = os.path.join(OUT, "replays", "%s-%s" % (prop, v["seed"]))
         planf, minf = base + ".full.plan", base + ".plan"
         if len(reported) >= MAXREP:  # many distinct classes: the first MAXREP are minimised and reported, the rest are counted
@@ -398,7 +421,7 @@ def main():
             known_hits.append((k, len(cs)))
             continue
         c = cs[0]
-        exe = exes[c["variant"]]
+        exe = exes[c["variant"].replace("valgrind", "plain")]
         base = os.path.join(OUT, "replays", "%s-%s" % (prop, c["seed"]))
         planf, minf = base + ".full.plan", base + ".plan"
         if str(c.get("idx")) == "?":
@@ -414,8 +437,8 @@ def main():
             continue
         ok = True
         for _ in range(2):
-            run, viols, crash, rc, err = sim_replay(exe, minf)
-            died = (crash is not None and crash.get("kind") == kind) or (crash is None and run is None and ((kind == "sanitizer" and rc == 77) or (kind == "signal" and rc < 0)))
+            run, viols, crash, rc, err = sim_replay(exe, minf, c["variant"])
+            died = (crash is not None and crash.get("kind") == kind) or (crash is None and run is None and ((kind == "sanitizer" and rc == 77) or (kind == "signal" and rc < 0))) or (kind == "valgrind" and rc == 78)
             if not died:
                 ok = False
         if not ok:
@@ -465,6 +488,7 @@ def main():
             "worker_crashes": len(crashes), "timeouts_inconclusive": len(timeouts),
             "components": REAL_VS_STUB,
             "schedule": [{"variant": v, "profile": p, "runs": n} for v, p, n in sched],
+            "stratified_enumeration": ({"what": "every call sequence of length <= 4 over {INIT a, INIT b, SELECT a, SELECT b, SET, GET, re-INIT a with another solution} x {double, long double}, each followed by a full audit", "sequences": C12_ENUM, "executed_in": ["exc.plain", "exit.plain"], "exhaustive_for_this_alphabet": True} if prop == "C12" else None),
             "known_findings_hit": [k["_text"] for k, _ in known_hits],
             "violations_reported": [{"oracle": r["oracle"], "sig": r["sig"], "count": r["count"], "replay": r["replay"]} for r in reported],
             "build_s": round(tbuild, 1), "explore_s": round(trun, 1),
